@@ -54,6 +54,17 @@ var c16PanicAllowed = map[string]string{
 	"flows/definition/migrations.GetTemplateCatalog": "called by the per-version migration functions with their own constant version; specdata/templates.json carries a catalog for each (TestCurrentTemplateCatalog pins it)",
 }
 var c16NilAllowed = map[string]string{}
+
+// c16VarIndexAllowed: computed indexes in the migration packages the generic idioms do not prove (confirmed by reading).
+var c16VarIndexAllowed = map[string]string{
+	"utils/jsonpath.parsePath/index#1":                                         "runes[i] right after `if i == len(runes) { break }`: i starts at 1 with len(runes) >= 1 (tested) and only grows by one after a read of runes[i] or under `i < len(runes)`, so i <= len(runes) throughout; paths are the constants produced by inspect.TemplatePaths, not definition input",
+	"utils/jsonpath.parsePath/index#5":                                         "the `else if runes[i] == '['` read of the same position as index#1",
+	"flows/definition/legacy/expressions.asParamMigratorsWithDefaults/index#2": "defaults[i] on the branch i >= len(oldParams) of a loop over make(max(len(oldParams), len(defaults))): there i < max(...) forces max == len(defaults) > i",
+	"flows/definition/legacy/expressions.asParamMigratorsWithDefaults/index#4": "paramMigrators[i] with i < max(len(oldParams), len(defaults)): len(oldParams) <= len(paramMigrators) is tested first and the only caller with defaults (`fixed`) passes 2 defaults and 3 migrators",
+	"flows/definition/legacy/expressions.MigrateStringLiteral/high#1":          "s[1:len(s)-1] on the text of a STRING token of the legacy grammar, which starts and ends with a quote (len >= 2)",
+	"flows/definition/legacy.TransformTranslations/index#2":                    "perLanguage[i] with i ranging over items: perLanguage is make([]string, len(items)), either just created or fetched from the map it was stored in on an earlier iteration",
+	"(*flows/definition/legacy.StringOrNumber).UnmarshalJSON/high#1":           "data[1:len(data)-1] under data[0] == '\"': encoding/json hands UnmarshalJSON one complete JSON value, so a value starting with a quote also ends with one (len >= 2)",
+}
 var c16IndexAllowed = map[string]string{
 	"utils/jsonpath.visit/path[0]":  "paths are \"$\" + the constant entries of specdata/templates.json (every entry has at least one step; TestCurrentTemplateCatalog pins the catalog) and the recursion only descends while len(rem) != 0",
 	"utils/jsonpath.visit/path[1:]": "same: len(path) >= 1 at every call",
@@ -92,6 +103,8 @@ func checkC16(p *core.Program, r *core.Report) {
 	c16R10(p, r)
 	r.Rule("R7", "every constant index or slice bound on a slice in these packages is within a length established on every path or listed")
 	r.Count("const_index_sites", constIndexRule(p, r, fns, "R7", c16IndexAllowed, false))
+	r.Rule("R11", "every computed index or slice bound in these packages is shown non-negative and within the length of the value it indexes on every path, or listed (same analysis as C04/R7)")
+	r.Count("variable_index_sites", varIndexRule(p, r, fns, "R11", c16VarIndexAllowed))
 	r.Rule("R6", "in the generic-JSON migrations, every write into a map that comes from a discarded-ok assertion on decoded JSON (directly or through an accessor such as GetLanguageTranslation) is controlled by a nil / ok test")
 	c16R6(p, r, fns)
 	// R5
